@@ -68,6 +68,29 @@ func runC07(c *Ctx) {
 			}
 		}
 	}
+	// a sweep over the whole range of the field: every power of two and of ten, their neighbours, and the present
+	// instant in other units (milli-, micro-, nanoseconds; minutes) - the comparison is of plain seconds everywhere
+	{
+		var sweep []int64
+		for e := uint(0); e < 63; e++ {
+			sweep = append(sweep, int64(1)<<e, int64(1)<<e-1, int64(1)<<e+1)
+		}
+		for p, k := int64(1), 0; k < 19; k, p = k+1, p*10 {
+			sweep = append(sweep, p, p+1, p-1, 3*p, 7*p)
+		}
+		sweep = append(sweep, now*1000, now*1000-1, now*1000+1, now*1000000, now*1000000000, now/60, now/1000, now*2, now+now/2, now*999, now*1001)
+		n := 0
+		for _, v := range sweep {
+			for _, sign := range []int64{1, -1} {
+				kind := kindNames[n%len(kindNames)]
+				n++
+				one(kind, sign*v, 0, n%5 == 0)
+				one(kind, 0, sign*v, n%5 == 1)
+				one(kind, sign*v, sign*v, false)
+				c.count("range_sweep")
+			}
+		}
+	}
 	c.sum.Exhaustive = true
 	// claims that ALSO contain something invalid: the time issues change neither that they block without time
 	// checks nor what is counted (an authorization response may be a rejection: error set, no token)
@@ -173,7 +196,11 @@ func runC10(c *Ctx) {
 	// (a '>' that is not the last token is an ordinary token; '>' needs at least one token; '*' exactly one)
 	nearMiss := [][2]string{{"i.eu.public", "i.>.internal"}, {"i.a.b", "i.>.b"}, {"i.a.b", "i.*"}, {"i.>", "i.*"}, {"i.*", "i.a"},
 		{"i.foo.bar", "i.foo"}, {"i.foo", "i.foo.>"}, {"i.foo", "i.foo.bar"}, {"i.a.b", "*.a"}, {"i", ">.x"}, {"i.a", "i.a.*"}, {"i.>", "i.a.>"},
-		{"i.a.b", "i.a.b.>"}, {"i.a.b", ">.a.b"}}
+		{"i.a.b", "i.a.b.>"}, {"i.a.b", ">.a.b"},
+		// tokens are compared whole: a grant whose token is a character-wise prefix of the imported one, or whose last
+		// token merely ENDS in a wildcard character, grants nothing more than itself
+		{"i.orders.eu", "i.order.>"}, {"i.foobar", "i.foo.>"}, {"i.eu.private.billing", "i.eu>"}, {"i.eux", "i.eu>"}, {"i.ab", "i.a*"},
+		{"i.a.b", "i.>>"}, {"i.abc", "i.ab"}, {"i.ab", "i.abc"}, {"i.a.bc.d", "i.a.b.>"}, {"i.eu>x", "i.eu>"}}
 	for rep := 0; rep < reps; rep++ {
 		for pi := 0; pi < 40; pi++ {
 			pat := pi
@@ -264,6 +291,7 @@ func runC10(c *Ctx) {
 							// payload of another token under this signature
 							ac := jwt.NewActivationClaims(addressee)
 							ac.ImportSubject, ac.ImportType = ">", tokKind
+							ac.Name = "another token" // (never the same payload text as the token it is spliced into)
 							t2, _ := ac.Encode(exporter.kp)
 							a, b := splitTok(tok), splitTok(t2)
 							tok, how = a[0]+"."+b[1]+"."+a[2], "spliced payload"
